@@ -1,7 +1,8 @@
 SPECIFICATION Spec
 CONSTANTS
   AddrNegCountPanic = TRUE
-  Level = 1
+  OfflineSigSkipped = FALSE
+  Level = 0
 VIEW view
-PROPERTIES NoPanic HeaderChecksOK
+PROPERTIES NoPanic
 CHECK_DEADLOCK FALSE
